@@ -4,4 +4,4 @@ Require Import ExtrOcamlBasic.
 Extraction Language OCaml.
 Extraction "../build/ocaml/C05/model.ml"
   step proc_init st_code encrypt_bytes vnc_encrypt des_encrypt des_decrypt gcrypt_weak vnc_key
-  mkCfg cfgF cfgU cfg_fixed cfg_fixed3 cfg_legacy default_ext mkScreen PwNone.
+  mkCfg cfgF cfgE cfgU xor_check cfg_fixed cfg_fixed3 cfg_legacy default_ext mkScreen PwNone.
